@@ -237,7 +237,17 @@ int decide(int self, bool self_enabled, bool self_yielding) {
   }
   bool only_yielders = false;
   if (n == 0) {
-    for (auto& t : g_threads) if (t->st == YIELDED || (t->id == self && self_yielding)) { if (n < 63) en[n++] = t->id; }
+    // round-robin among the spinners, the caller last: a spinner that yields (spin_wait -> this_thread::yield) right after
+    // another thread's write has not looked at memory again yet and would make progress on its next turn; always
+    // continuing the lowest id would starve it and report a livelock that is not one
+    {
+      int N = (int)g_threads.size();
+      int base = self >= 0 ? self : 0;
+      for (int k = 1; k <= N; ++k) {
+        T& t = *g_threads[(base + k) % N];
+        if (t.st == YIELDED || (t.id == self && self_yielding)) { if (n < 63) en[n++] = t.id; }
+      }
+    }
     if (n > 0) {
       only_yielders = true;
       if (++g_yield_rounds > 300) {
@@ -513,6 +523,7 @@ static void observed_impl(const void* addr, int kind, uint64_t value, bool wrote
   if (tl_self < 0 || tl_in_rt) return;
   Ign ig; RtGuard rg;
   T& me = *g_threads[tl_self];
+  if (g_trace) std::fprintf(stderr, "      T%d %s %p -> %llx%s%s\n", tl_self, kKind[kind], addr, (unsigned long long)value, wrote ? " (wrote)" : "", shadow ? " (shadow)" : "");
   uint64_t lh = 0;
   T::SbEnt* se = nullptr;
   if (shadow) {
